@@ -61,9 +61,13 @@ def gen_params(rng, thorough, big=False):
     nnull = 0 if r < 0.35 else (1 if r < 0.55 else rng.randint(1, max(1, n - 4)))
     nact = n - nnull
     num = rng.randint(1, 25) if rng.random() < 0.4 else rng.randint(1, max(1, min(25, nact - 3)))
+    mgrade = (rng.uniform(-13.5, -12.3) if (rng.random() < 0.2 and nact >= 5 and not big) else None)
+    if mgrade is not None:
+        num = max(1, min(num, nact - 2))      # the mode of the token mass itself (ill-conditioned, ~1e6 x the others) is not requested
     return dict(kind='random', seed=rng.randrange(2 ** 31), n=n, nnull=nnull, num=num,
                 scale=rng.choice([0.25, 0.5, 2.0, 4.0, 9.0]), fmt=rng.choice(['csr', 'csr', 'coo', 'csc']),
-                mexp=(rng.uniform(-11, -8) if rng.random() < 0.25 else None))
+                mexp=(rng.uniform(-11, -8) if rng.random() < 0.25 else None),
+                mgrade=mgrade)
 
 
 def conv(A, fmt):
@@ -83,6 +87,12 @@ def build_random(p):
     if p.get('mexp') is not None:
         # consistent small units (e.g. N-mm-tonne): every mass entry far below 1e-8, the matrix as positive definite as before
         Ma = Ma / np.abs(Ma).max() * 10 ** p['mexp']
+    if p.get('mgrade') is not None:
+        # one amplitude carrying only a token (but genuine) lumped mass, 12-13 decades below its neighbours: still active
+        j_ = rs.randint(m)
+        Ma[j_, :] = 0.
+        Ma[:, j_] = 0.
+        Ma[j_, j_] = np.abs(Ma).max() * 10 ** p['mgrade']
     return conv(embed(Ka, n, act), p.get('fmt', 'csr')), conv(embed(Ma, n, act), p.get('fmt', 'csr')), act
 
 
@@ -261,8 +271,11 @@ def classify_exception(ex, calls, n, num, nred, sparse, reduced):
 def exact_freqs(K, M, act):
     Ka = csr_matrix(K)[act, :][:, act].toarray()
     Ma = csr_matrix(M)[act, :][:, act].toarray()
-    w2 = scipy.linalg.eigh(Ka, Ma, eigvals_only=True)
-    return np.sqrt(np.abs(w2))
+    # M v = mu K v through the Cholesky factor of K (K is the well-conditioned one; a token mass makes M nearly singular):
+    # the LOWEST frequencies (largest mu) keep full relative accuracy
+    mu = scipy.linalg.eigh(Ma, Ka, eigvals_only=True)[::-1]
+    with np.errstate(divide='ignore'):
+        return np.sqrt(np.abs(1. / mu))
 
 
 def check_contract(calls, bad):
@@ -331,6 +344,9 @@ def predicates(K, M, act, num, sparse, sort, reduced, outcome, calls, wex, n):
     if len(re) and not reduced:
         got = np.sort(re)
         p = min(len(got), len(wex))
+        # a mode more than 2e5 x above the fundamental (the mode of a token lumped mass) is ill-conditioned in any solver: not compared
+        while p and wex[p - 1] > 2e5 * wex[0]:
+            p -= 1
         if p and not np.all(np.abs(got[:p] - wex[:p]) <= TOL_VAL * wex[:p]):
             k = int(np.argmax(np.abs(got[:p] - wex[:p]) > TOL_VAL * wex[:p]))
             bad.append((None, '%d-th lowest returned frequency is %r, the %d-th lowest frequency of the pair is %r'
@@ -401,6 +417,8 @@ def evaluate(p, runs):
     if base_s and base_d:
         a, b = np.sort(base_s[0]['outcome'][1].real), np.sort(base_d[0]['outcome'][1].real)
         k = min(len(a), len(b))
+        while k and b[k - 1] > 2e5 * b[0]:      # ill-conditioned mode of a token lumped mass: not compared
+            k -= 1
         if k and not np.all(np.abs(a[:k] - b[:k]) <= TOL_VAL * np.abs(b[:k])):
             bad.append((None, 'sparse and dense paths return different lowest frequencies: %r vs %r'
                         % (a[:k][:6].tolist(), b[:k][:6].tolist())))
@@ -411,6 +429,8 @@ def evaluate(p, runs):
                 a = np.sort(base[0]['outcome'][1].real) / np.sqrt(r['factor'])
                 b = np.sort(r['outcome'][1].real)
                 k = min(len(a), len(b))
+                while k and b[k - 1] > 2e5 * b[0]:
+                    k -= 1
                 if k and not np.all(np.abs(a[:k] - b[:k]) <= TOL_VAL * np.abs(b[:k])):
                     bad.append((None, 'scaling the mass by %g does not scale the frequencies by 1/sqrt of it: %r vs %r'
                                 % (r['factor'], a[:k][:6].tolist(), b[:k][:6].tolist())))
@@ -525,6 +545,7 @@ def correspondence(ctx):
                           found_input=False)
             if ndis >= 3:
                 break
+    redefinition_stream(ctx, rng)
     cov = {}
     for f in (Fq.freq, S.remove_null_cols):
         al = tracer.all_lines(f)
@@ -537,6 +558,66 @@ def correspondence(ctx):
     ctx.cov['input_distribution'] = dist
     ctx.cov['model_runs_compared'] = len(pending) - dist['discarded_small_margin']
     ctx.cov['disagreements'] = ndis
+
+
+def redefinition_one(p, edit, sparse, num):
+    """(frequencies before the edit, after the edit on the same object, of a fresh panel with the edited data)"""
+    def apply(obj):
+        if edit == 'mu':
+            obj.mu = obj.mu * 4.
+        elif edit == 'plyt':
+            obj.plyt = obj.plyt * 1.5
+            obj.plyts = []
+        elif edit == 'a':
+            obj.a = obj.a * 1.3
+        else:
+            obj.stack = [0, 0, 90, 90]
+            obj.plyts = []
+            obj.laminaprops = []
+    pn = make_panel(p)
+    pn.num_eigvalues = num
+    with np.errstate(all='ignore'):
+        pn.freq(sparse_solver=sparse, silent=True)
+        first = np.array(pn.eigvals, dtype=complex)
+        apply(pn)
+        pn.freq(sparse_solver=sparse, silent=True)
+        again = np.array(pn.eigvals, dtype=complex)
+        fresh = make_panel(p)
+        fresh.num_eigvalues = num
+        apply(fresh)
+        fresh.freq(sparse_solver=sparse, silent=True)
+        want = np.array(fresh.eigvals, dtype=complex)
+    return first, again, want
+
+
+def redefinition_bad(p, edit, sparse, num):
+    try:
+        first, again, want = redefinition_one(p, edit, sparse, num)
+    except Exception:       # solver / glue exceptions are judged by the main stream
+        return None
+    k = min(len(again), len(want), num)
+    if k and np.abs(again[:k] - want[:k]).max() > 1e-6 * np.abs(want[:k]).max():
+        return ('Panel.freq after editing %r on an already analysed panel returns %r, a freshly defined panel with the same '
+                'data gives %r (before the edit: %r)' % (edit, again[:k].real.tolist(), want[:k].real.tolist(),
+                                                         first[:k].real.tolist()))
+    return None
+
+
+def redefinition_stream(ctx, rng):
+    """a Panel whose definition is edited between two frequency analyses gives the frequencies of a freshly defined panel
+    with the edited data (the mass and stiffness matrices used belong to the definition the panel has NOW)"""
+    for _ in range(ctx.scale(4, 30)):
+        p = gen_panel_params(rng)
+        p['m'], p['nn'] = rng.randint(3, 4), rng.randint(3, 4)
+        sparse = rng.random() < 0.5
+        num = rng.choice([2, 3, 5])
+        edit = rng.choice(['mu', 'mu', 'plyt', 'a', 'stack'])
+        bad = redefinition_bad(p, edit, sparse, num)
+        ctx.evaluations += 1
+        if bad and ctx.violation('C06 fails on the implementation: ' + bad,
+                                 dict(problem=describe_clean(p), edit=edit, sparse=sparse, num=num, kind='redefinition')):
+            return True
+    return False
 
 
 def search(ctx, reason):
@@ -563,6 +644,10 @@ def replay(ctx, data):
         print('replay names a broken obligation, no input:', data['what'])
         return 1
     p = r['problem']
+    if r.get('kind') == 'redefinition':
+        bad = redefinition_bad(p, r['edit'], r['sparse'], r['num'])
+        print('redefinition:', bad)
+        return 1 if bad else 0
     runs = runs_of(p)
     bad, stats = evaluate(p, runs)
     lines, keep = [], []
